@@ -100,9 +100,10 @@ pub mod probe {
 /// Consumers that go through the specialisable iterator methods (nth, nth_back, fold, rfold,
 /// try_fold, last, len-based adaptors). `consume_de!` needs DoubleEndedIterator + ExactSizeIterator
 /// at compile time, `consume_fwd!` only Iterator. Returns None for a consumer that does not apply.
-pub const CONSUMERS: [&str; 15] = [
+pub const CONSUMERS: [&str; 20] = [
     "nth(k)+rest", "nth_back(k)+rest", "take(k).rev()", "rev().skip(k)", "skip(k).rev()", "step_by(k+1)", "rev().step_by(k+1)", "last()",
     "for_each", "rev().for_each", "by_ref().take(k)+rest", "by_ref().rev().take(k)+rest", "peekable: peek, nth(k), next_back, rest", "step_by(k+1).rev()", "skip(k).step_by(2)",
+    "next, nth_back(k), len-check, rest", "next, rev().skip(k)", "next_back, nth(k), len-check, rest", "next, next_back, rev().step_by(k+1)", "next, next, nth_back(k), nth_back(k), len-check, rest",
 ];
 #[macro_export]
 macro_rules! consume_de {
@@ -167,6 +168,73 @@ macro_rules! consume_de {
             }
             13 => Some(it.step_by(k + 1).rev().collect::<Vec<_>>()),
             14 => Some(it.skip(k).step_by(2).collect::<Vec<_>>()),
+            15 => {
+                let mut v = Vec::new();
+                if let Some(x) = it.next() {
+                    v.push(x);
+                }
+                if let Some(x) = it.nth_back(k) {
+                    v.push(x);
+                }
+                let l = it.len();
+                let h = it.size_hint();
+                let rest: Vec<_> = it.collect();
+                assert!(l == rest.len() && h == (l, Some(l)), "after next, nth_back({}): len() = {}, size_hint() = {:?} but {} elements follow", k, l, h, rest.len());
+                v.extend(rest);
+                Some(v)
+            }
+            16 => {
+                let mut v = Vec::new();
+                if let Some(x) = it.next() {
+                    v.push(x);
+                }
+                v.extend(it.rev().skip(k));
+                Some(v)
+            }
+            17 => {
+                let mut v = Vec::new();
+                if let Some(x) = it.next_back() {
+                    v.push(x);
+                }
+                if let Some(x) = it.nth(k) {
+                    v.push(x);
+                }
+                let l = it.len();
+                let h = it.size_hint();
+                let rest: Vec<_> = it.collect();
+                assert!(l == rest.len() && h == (l, Some(l)), "after next_back, nth({}): len() = {}, size_hint() = {:?} but {} elements follow", k, l, h, rest.len());
+                v.extend(rest);
+                Some(v)
+            }
+            18 => {
+                let mut v = Vec::new();
+                if let Some(x) = it.next() {
+                    v.push(x);
+                }
+                if let Some(x) = it.next_back() {
+                    v.push(x);
+                }
+                v.extend(it.rev().step_by(k + 1));
+                Some(v)
+            }
+            19 => {
+                let mut v = Vec::new();
+                for _ in 0..2 {
+                    if let Some(x) = it.next() {
+                        v.push(x);
+                    }
+                }
+                for _ in 0..2 {
+                    if let Some(x) = it.nth_back(k) {
+                        v.push(x);
+                    }
+                }
+                let l = it.len();
+                let rest: Vec<_> = it.collect();
+                assert!(l == rest.len(), "after 2x next, 2x nth_back({}): len() = {} but {} elements follow", k, l, rest.len());
+                v.extend(rest);
+                Some(v)
+            }
             _ => None,
         }
     }};
